@@ -67,35 +67,48 @@ def _eval(case):
     """-> (ok, clause, info)"""
     from pytezos.crypto import hash as R
     fn, seed = case['fn'], case['seed']
+    # `arg` is the object handed to the function under contract; `orig` an independent copy.  The argument is an INPUT: it must
+    # be unchanged afterwards, and handing the same object in again must give the same hash (a block producer computes the
+    # list hash, the list-list hash and the payload hash from the same lists).
     if fn == 'reduce':
         xs = leaves(case['n'], case['pattern'], seed)
-        ok, got = _call(R._reduce_operation_hashes, list(xs))
+        arg, orig = list(xs), list(xs)
+        call = lambda: _call(R._reduce_operation_hashes, arg)   # noqa
         want = M.root(xs)
         name = '_reduce_operation_hashes'
     elif fn == 'list':
         ops = [M.op_b58(x) for x in leaves(case['n'], case['pattern'], seed)]
-        ok, got = _call(R.operation_list_hash, list(ops))
+        arg, orig = list(ops), list(ops)
+        call = lambda: _call(R.operation_list_hash, arg)   # noqa
         want = M.operation_list_hash(ops)
         name = 'operation_list_hash'
     elif fn == 'listlist':
-        passes = [[M.op_b58(x) for x in leaves(n, case['pattern'], f'{seed}/{i}')] for i, n in enumerate(case['ns'])]
-        ok, got = _call(R.operation_list_list_hash, [list(p) for p in passes])
+        # case['same']: every pass holds the SAME operations (identical non-empty passes -> identical list hashes)
+        passes = [[M.op_b58(x) for x in leaves(n, case['pattern'], f'{seed}/{0 if case.get("same") else i}')] for i, n in enumerate(case['ns'])]
+        arg, orig = [list(p) for p in passes], [list(p) for p in passes]
+        call = lambda: _call(R.operation_list_list_hash, arg)   # noqa
         want = M.operation_list_list_hash(passes)
         name = 'operation_list_list_hash'
     elif fn == 'payload':
         ops = [M.op_b58(x) for x in leaves(case['n'], case['pattern'], seed)]
         pred = M.block_b58(random.Random(f'{seed}/pred').randbytes(32))
-        ok, got = _call(R.block_payload_hash, pred, case['round'], list(ops))
+        arg, orig = list(ops), list(ops)
+        call = lambda: _call(R.block_payload_hash, pred, case['round'], arg)   # noqa
         want = M.block_payload_hash(pred, case['round'], ops)
         name = 'block_payload_hash'
     else:
         raise ValueError(fn)
-    if not ok:
-        return False, f'{name}::safety.no_exception', f'raised {got}'
-    if got != want:
-        g = got.hex() if isinstance(got, bytes) else got
-        w = want.hex() if isinstance(want, bytes) else want
-        return False, f'{name}::ensures.merkle_root', f'returned {g}, expected {w}'
+    for attempt in ('', '[second call on the same list object]'):
+        ok, got = call()
+        if not ok:
+            return False, f'{name}::safety.no_exception', f'raised {got} {attempt}'
+        if got != want:
+            g = got.hex() if isinstance(got, bytes) else got
+            w = want.hex() if isinstance(want, bytes) else want
+            return False, (f'{name}::ensures.merkle_root' if not attempt else f'{name}::ensures.same_hash_when_the_same_list_is_used_again'), \
+                f'returned {g}, expected {w} {attempt}'
+        if arg != orig:
+            return False, f'{name}::ensures.input_unchanged', f'the argument list was modified by the call: now {str(arg)[:160]}, was {str(orig)[:160]}'
     return True, '', ''
 
 
@@ -159,4 +172,6 @@ def run_R(ck: Check):
             for n in lens:
                 run(dict(fn='listlist', ns=[n] * k, pattern='random', seed=seed), f'listlist {k} passes of {n}')
                 run(dict(fn='listlist', ns=[n] * k + [0], pattern='all-equal', seed=seed), f'listlist {k} passes of {n} + empty')
+                if n and k >= 2:
+                    run(dict(fn='listlist', ns=[n] * k, pattern='random', seed=seed, same=True), f'listlist {k} identical passes of {n}')
     ck.exhaustive = False
